@@ -55,12 +55,14 @@ func (s *Store) Set(id packets.PacketID) (bool, error) {
 	}
 	c := s.pool.Get()
 	defer c.Close()
-	_, err := c.Do("hset", getKey(s.clientID), id, 1)
+	// HSET replies 0 when the field already existed: the id was stored before the cache was (re)built,
+	// e.g. by the broker process that ran before a restart.
+	added, err := redis.Int(c.Do("hset", getKey(s.clientID), id, 1))
 	if err != nil {
 		return false, err
 	}
 	s.unackpublish[id] = struct{}{}
-	return false, nil
+	return added == 0, nil
 }
 
 func (s *Store) Remove(id packets.PacketID) error {
